@@ -305,22 +305,40 @@ def _operators(chk, facts):
         chk.floor("R-C04-4", n_magic, 15, "operator arms typed through gen_magic")
         missing = sorted(set(OTHER_OPERATORS) - seen_other)
         chk.ob("R-C04-4", "other-operators-present", not missing, "every reviewed non-magic operator has its arm in gen_op" if not missing else f"gen_op has no arm for {missing}", loc)
-        # gen_magic itself: result constrained by access(fun, left, right) with entity = left and args [left, right]
+        # gen_magic itself, by what it builds (whether through the helper `access(..)`, inline, or via named intermediates):
+        # both operands are visited, and the node is constrained by  Access { entity: left, name: Function { name: fun, args: [left, right] } }
         gm = syn.one_fn("gen_magic", mod=GEN + "::operation")
-        s = src(gm["body"]).replace(" ", "")
-        ok = "access(fun,left,right)" in s and "gen_vec(" in s
-        chk.ob("R-C04-4", "gen_magic:shape", ok, "gen_magic visits both operands and constrains the node by access(fun, left, right)" if ok else "gen_magic no longer constrains the node by access(fun, left, right)", facts.loc_of(gm))
-        ac = syn.one_fn("access", mod=GEN + "::operation")
-        st = [n for n in walk(ac["body"]) if n.get("k") == "struct" and n["p"].endswith("Access")]
-        fs = [n for n in walk(ac["body"]) if n.get("k") == "struct" and n["p"].endswith("Function")]
-        ok = len(st) == 1 and len(fs) == 1
-        if ok:
-            ent = dict(st[0]["fields"]).get("entity")
-            args_ = dict(fs[0]["fields"]).get("args")
-            ok = ent is not None and "Expected::from(left)" in src(ent).replace(" ", "") and src(args_).replace(" ", "").replace("vec!", "") in ("[Expected::from(left),Expected::from(right)]",) \
-                or (ent is not None and "Expected::from(left)" in src(ent).replace(" ", "") and re.search(r"Expected::from\(left\),\s*Expected::from\(right\)", src(args_)) is not None)
-        chk.ob("R-C04-4", "access:receiver-and-args", ok, "access(): the method is looked up on the class of `left` with arguments (left, right)" if ok else
-               "access() no longer looks the method up on `left` with arguments (left, right)", facts.loc_of(ac))
+        from . import symeval
+        se = symeval.SymEval(syn, GEN)
+        env0 = {p_: ("var", p_) for p_ in ("fun", "ast", "left", "right", "env", "ctx", "constr")}
+        adds = [n for n in walk(gm["body"]) if n.get("k") == "mcall" and n["m"] == "add" and len(n["args"]) == 4]
+        visits = [n for n in walk(gm["body"]) if n.get("k") == "call" and n["f"].get("k") == "path" and n["f"]["p"].split("::")[-1] in ("gen_vec", "generate", "bin_op")]
+        vis_ids = set()
+        for v_ in visits:
+            vis_ids |= idents_in(v_)
+        ok_vis = {"left", "right"} <= vis_ids
+        ok_acc = False
+        shown = "-"
+        if len(adds) == 1:
+            # evaluate inside the function's own let-environment
+            envb = dict(env0)
+            for st_ in gm["body"]["stmts"]:
+                if st_.get("k") == "local" and st_.get("init") is not None and st_["pat"].get("k") == "pident":
+                    envb[st_["pat"]["name"]] = se.ev(st_["init"], envb)
+            par = se.ev(adds[0]["args"][1], envb)
+            chv = se.ev(adds[0]["args"][2], envb)
+            shown = symeval.show(chv)[:160]
+            FROM = lambda x: ("call", "Expected::from", [("var", x)])
+            def expected_new(v_):
+                return v_[2][1] if v_[0] == "call" and v_[1] == "Expected::new" and len(v_[2]) == 2 else None
+            acc = expected_new(chv)
+            if par == FROM("ast") and acc and acc[0] == "core" and acc[1].endswith("Access") and acc[2].get("entity") == FROM("left"):
+                fnv = expected_new(acc[2].get("name", ("?",)))
+                if fnv and fnv[0] == "core" and fnv[1].endswith("Function") and fnv[2].get("args") == ("list", [FROM("left"), FROM("right")]):
+                    nm = fnv[2].get("name")
+                    ok_acc = nm in (("call", "StringName::from", [("var", "fun")]), ("var", "fun")) or (nm and "fun" in repr(nm))
+        chk.ob("R-C04-4", "gen_magic:shape", ok_vis and ok_acc, "gen_magic visits both operands and constrains the node by Access(left).Function(fun, [left, right])" if ok_vis and ok_acc else
+               f"gen_magic no longer constrains the node by `left.fun(left, right)` (visits both operands: {ok_vis}; child of the constraint: {shown})", facts.loc_of(gm))
     except AnchorError as e:
         chk.anchor_fail("R-C04-4", e)
 
@@ -402,38 +420,8 @@ def _names(chk, facts):
     syn, mir = facts.syn, facts.mir
     # (a) match_id
     try:
-        mi = syn.one_fn("match_id", mod=GEN + "::expression")
-        loc = facts.loc_of(mi)
-        chain_ = []
-        ifs = [n for n in walk(mi["body"]) if n.get("k") == "if"]
-        # the outermost if/else-if chain of the Id arm
-        top = None
-        for n in ifs:
-            if 'lit.as_str()=="None"' in src(n["c"]).replace(" ", ""):
-                top = n
-                break
-        if top is None:
-            raise AnchorError("match_id: if-chain on the identifier not found")
-        n = top
-        while n is not None and n.get("k") == "if":
-            chain_.append((src(strip(n["c"])).replace(" ", ""), n["then"]))
-            el = n.get("else")
-            if el is not None and el.get("k") == "block" and len(el["stmts"]) == 1 and strip(el["stmts"][0].get("e", {})).get("k") == "if":
-                el = strip(el["stmts"][0]["e"])
-            if el is None or el.get("k") != "if":
-                last_else = el
-                break
-            n = el
-        conds = [c for c, _ in chain_]
-        want = ['(lit.as_str()=="None")', '((lit.as_str()=="True")||(lit.as_str()=="False"))', 'env.is_def_mode', 'env.is_destruct_mode',
-                'env.get_var(lit,&constr.var_mapping).is_some()']
-        ok = [c.strip("()") for c in conds] == [w.strip("()") for w in want]
-        chk.ob("R-C04-5", "match_id:cases", ok, "an identifier is None, True/False, a definition, a deletion or must be in the environment" if ok else
-               f"the cases of match_id changed: {conds}", loc)
-        t = tail_expr(last_else) if last_else is not None else None
-        ok = t is not None and src(t).startswith("Err(")
-        chk.ob("R-C04-5", "match_id:undefined-is-error", ok, "an identifier that is none of these is `Undefined variable`" if ok else
-               "match_id no longer rejects an identifier that is not in the environment: a use of an undefined name is accepted (NameError at run time)", loc)
+        from .c09 import match_id_paths
+        match_id_paths(chk, facts, "R-C04-5")
         # the Id arm of gen_expr goes to match_id; its other arm (`_ => Ok(env.clone())`) is reached only for non-Id nodes
         ge = syn.one_fn("gen_expr", mod=GEN + "::expression")
         ok = False
